@@ -20,7 +20,10 @@ EXTENDS Integers, Sequences, FiniteSets, TLC
 
 CONSTANTS
   Impl,          \* "intended" | "asfound"  (the two places where the found tree differs, DESIGN section 7 D9)
-  MaxManifests,  \* ManifestReceived events the environment publishes (manifest ids 1..MaxManifests)
+  MaxManifests,  \* ManifestReceived events the environment publishes
+  NContents,     \* manifests are VALUES: each published manifest has one of the contents 1..NContents (<= 4), so a later
+                 \* manifest can be equal to an earlier one (A-B-A, A-A, A-B-B); manifest id = content id
+  FreshOnly,     \* BOOLEAN: every published manifest has a new content (1, 2, 3, ..)
   MaxClosed,     \* EventLeaseClosed events the environment publishes
   MaxDeployErr,  \* Deploy calls the environment lets fail
   MaxTdErr,      \* TeardownLease attempts the environment lets fail
@@ -62,10 +65,21 @@ NoMsg == Msg("none", 0)
 
 NStim(x) == Cardinality({i \in DOMAIN script : script[i] = x})
 
+\* manifest stimuli carry their content
+ManStims == <<"m1", "m2", "m3", "m4">>
+IsManStim(s) == \E c \in 1..4 : ManStims[c] = s
+ContentOf(s) == CHOOSE c \in 1..4 : ManStims[c] = s
+NMan == Cardinality({i \in DOMAIN script : IsManStim(script[i])})
+MaxUsed == LET U == {ContentOf(script[i]) : i \in {j \in DOMAIN script : IsManStim(script[j])}}
+           IN IF U = {} THEN 0 ELSE CHOOSE x \in U : \A y \in U : y <= x
+\* contents are interchangeable: a new content is always the next unused number
+ContentChoices == IF FreshOnly THEN {MaxUsed + 1} \cap (1..4)
+                  ELSE {c \in 1..4 : c <= NContents /\ c <= MaxUsed + 1}
+
 TypeOK ==
   /\ svc \in {"running", "stopping", "stopped"} /\ shut \in BOOLEAN
   /\ mgr \in {"none", "loop", "exiting", "stopped", "gone"}
-  /\ state \in States /\ mg \in 0..MaxManifests
+  /\ state \in States /\ mg \in 0..4
   /\ hn \in {"none", "pending", "ok", "failed"} /\ hnc \in BOOLEAN /\ hnHeld \in BOOLEAN /\ hnRel \in BOOLEAN
   /\ op \in {"none", "deploy", "teardown"} /\ oph \in {"idle", "spawned", "running", "ok", "err"}
   /\ att \in 0..MaxAttempts /\ resv \in BOOLEAN
@@ -266,9 +280,12 @@ MgrExitWait ==
 
 \* doDeploy reads dm.mgroup inside the op goroutine, unsynchronised with the loop that assigns it on every update:
 \* the manifest handed to Deploy is the one held at issue time or any one the manager has been given since.
-\* (Manifest ids are issued in increasing order by the environment.)  Under the forced schedule there is no race.
-IssuedM == LET I == Idx(hist, IsDeployIssue) IN IF I = {} THEN mg ELSE hist[Max(I)].m
-DeployArgs == IF Atomic THEN {mg} ELSE IssuedM..mg
+\* (over-approximated by: issued with, held now, or received by the service since the issue.)  Under the forced schedule
+\* there is no race.
+LastIssue == LET I == Idx(hist, IsDeployIssue) IN IF I = {} THEN 0 ELSE Max(I)
+IssuedM == IF LastIssue = 0 THEN mg ELSE hist[LastIssue].m
+DeployArgs == IF Atomic THEN {mg}
+              ELSE {IssuedM, mg} \cup {hist[i].m : i \in {j \in Idx(hist, IsRecv) : j > LastIssue}}
 
 OpBeginM(m) ==
   /\ G_OpBegin
@@ -277,7 +294,7 @@ OpBeginM(m) ==
   /\ hist' = Append(hist, IF op = "deploy" THEN H("start", "Deploy", m, "-") ELSE H("start", "Teardown", 0, "-"))
   /\ UNCHANGED <<svc, shut, bus, inbox, resv, mgr, state, mg, hn, hnc, hnHeld, hnRel, op, att, script>>
 
-OpBegin == \E m \in 0..MaxManifests : OpBeginM(m)
+OpBegin == \E m \in 0..4 : OpBeginM(m)
 
 Internal ==
   \/ SvcShutdown \/ SvcRoute \/ SvcCollect \/ SvcDrain \/ SvcStopped
@@ -292,10 +309,10 @@ EnvOK == Len(script) < MaxStimuli /\ (Atomic => Stable)
 \* (the service would never consume it)
 PubOK == Atomic => ~shut
 
-PubManifest ==
-  /\ EnvOK /\ PubOK /\ NStim("m") < MaxManifests
-  /\ bus' = Append(bus, Msg("manifest", NStim("m") + 1))
-  /\ script' = Append(script, "m")
+PubManifestC(c) ==
+  /\ EnvOK /\ PubOK /\ NMan < MaxManifests /\ c \in 1..4
+  /\ bus' = Append(bus, Msg("manifest", c))
+  /\ script' = Append(script, ManStims[c])
   /\ UNCHANGED <<svc, shut, inbox, resv, mgr, state, mg, hn, hnc, hnHeld, hnRel, op, oph, att, hist>>
 
 PubClosed ==
@@ -334,6 +351,8 @@ OpReturn(r) ==
           ELSE IF att + 1 >= MaxAttempts THEN oph' = "err" /\ att' = att + 1
           ELSE oph' = "spawned" /\ att' = att + 1        \* retry.Do: back-off, then the next attempt
   /\ UNCHANGED <<svc, shut, bus, inbox, resv, mgr, state, mg, hn, hnc, hnHeld, hnRel, op>>
+
+PubManifest == \E c \in ContentChoices : PubManifestC(c)
 
 Env == PubManifest \/ PubClosed \/ ReqShutdown \/ HnResolve("ok") \/ HnResolve("failed")
        \/ OpReturn("ok") \/ OpReturn("err")
